@@ -173,3 +173,157 @@ Section FockProofs.
     symmetry. apply all_fock_probs_diag; assumption.
   Qed.
 End FockProofs.
+
+(* ---------------------------------------------------------------------------------- *)
+(* reduced_dm([k]) : the einsum subscripts built by the list.insert loop, and what they compute *)
+Lemma flat_map_dup_interleave : forall l : list nat, flat_map (fun x => [x; x]) l = interleave l l.
+Proof. induction l as [|x l IH]; [reflexivity|]. simpl. rewrite IH. reflexivity. Qed.
+
+Lemma flat_map_pairs : forall (f : nat -> nat) (l : list nat),
+  flat_map (fun ab : nat * nat => [f (fst ab); f (snd ab)]) (map (fun u => (u, u)) l)
+  = flat_map (fun x => [x; x]) (map f l).
+Proof. intros f l. induction l as [|u l IH]; [reflexivity|]. simpl. rewrite IH. reflexivity. Qed.
+
+Lemma interleave_app : forall a a' b b' : list nat, length a = length a' ->
+  interleave (a ++ b) (a' ++ b') = interleave a a' ++ interleave b b'.
+Proof.
+  induction a as [|x a IH]; intros [|y a'] b b' H; simpl in *; try discriminate; [reflexivity|].
+  rewrite IH by lia. reflexivity.
+Qed.
+
+Lemma skipn_cons_nth : forall (t : list nat) a, a < length t -> skipn a t = nth a t 0 :: skipn (S a) t.
+Proof.
+  induction t as [|x t IH]; intros a H; simpl in H; [lia|].
+  destruct a; [reflexivity|]. simpl. apply IH. lia.
+Qed.
+
+Lemma seg_map_nth : forall (t : list nat) len a, a + len <= length t ->
+  map (fun u => nth (u - 2) t 0) (seq (2 + a) len) = firstn len (skipn a t).
+Proof.
+  intros t len. induction len as [|len IH]; intros a H; [reflexivity|].
+  rewrite (skipn_cons_nth t a) by lia.
+  change (seq (2 + a) (S len)) with ((2 + a) :: seq (2 + S a) len).
+  cbn [map firstn]. replace (2 + a - 2) with a by lia. f_equal. apply IH. lia.
+Qed.
+
+Lemma fold_step_nohit : forall k l st, (forall m, In m l -> m <> k) ->
+  fold_left (red_labels_step [k]) l st = st.
+Proof.
+  intros k l. induction l as [|m l IH]; intros st H; [reflexivity|].
+  simpl. destruct st as [ind ctr]. unfold red_labels_step at 2. unfold memb. simpl.
+  destruct (Nat.eqb m k) eqn:E.
+  - apply Nat.eqb_eq in E. exfalso. apply (H m); [left; reflexivity|assumption].
+  - simpl. apply IH. intros x Hx. apply H. right. assumption.
+Qed.
+
+Lemma red_labels_single : forall N k, k < N ->
+  red_labels N [k] = insert_at k (0, 1) (map (fun t => (t, t)) (seq 2 (N - 1))).
+Proof.
+  intros N k Hk. unfold red_labels. cbn [length].
+  assert (Hseq : seq 0 N = seq 0 k ++ k :: seq (S k) (N - S k)).
+  { transitivity (seq 0 (k + S (N - S k))); [f_equal; lia|]. rewrite seq_app. reflexivity. }
+  rewrite Hseq.
+  rewrite fold_left_app.
+  rewrite (fold_step_nohit k (seq 0 k)) by (intros m Hm; apply in_seq in Hm; lia).
+  cbn [fold_left]. unfold red_labels_step at 2. unfold memb. cbn [existsb]. rewrite Nat.eqb_refl. cbn [orb].
+  rewrite (fold_step_nohit k (seq (S k) (N - S k))) by (intros m Hm; apply in_seq in Hm; lia).
+  reflexivity.
+Qed.
+
+Lemma labels_single_eval : forall N k (t : list nat) j j', k < N -> length t = N - 1 ->
+  flat_map (fun ab : nat * nat => [label_val 1 [j; j'] t (fst ab); label_val 1 [j; j'] t (snd ab)])
+           (insert_at k (0, 1) (map (fun u => (u, u)) (seq 2 (N - 1))))
+  = interleave (insert_nth k j t) (insert_nth k j' t).
+Proof.
+  intros N k t j j' Hk Ht. unfold insert_at, insert_nth.
+  rewrite flat_map_app. cbn [flat_map fst snd]. unfold label_val at 3 4. cbn [Nat.ltb Nat.leb Nat.mul Nat.add nth].
+  rewrite firstn_map, skipn_map.
+  replace (firstn k (seq 2 (N - 1))) with (seq (2 + 0) k).
+  2:{ replace (N - 1) with (k + (N - 1 - k)) by lia. rewrite seq_app, firstn_app, seq_length, Nat.sub_diag.
+      cbn [firstn]. rewrite app_nil_r. rewrite firstn_all2 by (rewrite seq_length; lia). reflexivity. }
+  replace (skipn k (seq 2 (N - 1))) with (seq (2 + k) (N - 1 - k)).
+  2:{ replace (N - 1) with (k + (N - 1 - k)) at 2 by lia. rewrite seq_app, skipn_app, seq_length, Nat.sub_diag.
+      rewrite skipn_all2 by (rewrite seq_length; lia). reflexivity. }
+  assert (E : forall l, flat_map (fun ab : nat * nat => [label_val 1 [j; j'] t (fst ab); label_val 1 [j; j'] t (snd ab)])
+                          (map (fun u => (u, u)) (map (fun x => 2 + x) l))
+                   = interleave (map (fun x => nth x t 0) l) (map (fun x => nth x t 0) l)).
+  { intro l. rewrite flat_map_pairs, flat_map_dup_interleave, !map_map.
+    assert (M : map (fun x => label_val 1 [j; j'] t (2 + x)) l = map (fun x => nth x t 0) l).
+    { apply map_ext. intro x. unfold label_val. replace (2 + x <? 2 * 1) with false by (symmetry; apply Nat.ltb_ge; lia).
+      f_equal. lia. }
+    rewrite M. reflexivity. }
+  assert (S1 : seq (2 + 0) k = map (fun x => 2 + x) (seq 0 k)).
+  { change (fun x => 2 + x) with (fun x => S (S x)). rewrite <- map_map, !seq_shift. reflexivity. }
+  assert (S2 : seq (2 + k) (N - 1 - k) = map (fun x => 2 + x) (seq k (N - 1 - k))).
+  { change (fun x => 2 + x) with (fun x => S (S x)). rewrite <- map_map, !seq_shift. reflexivity. }
+  rewrite S1, S2, !E.
+  assert (F1 : map (fun x => nth x t 0) (seq 0 k) = firstn k t).
+  { pose proof (seg_map_nth t k 0) as P. simpl skipn in P. rewrite <- P by lia.
+    rewrite S1, map_map. apply map_ext. intro x. f_equal. lia. }
+  assert (F2 : map (fun x => nth x t 0) (seq k (N - 1 - k)) = skipn k t).
+  { pose proof (seg_map_nth t (N - 1 - k) k) as P.
+    rewrite (firstn_all2 (skipn k t)) in P by (rewrite skipn_length; lia). rewrite <- P by lia.
+    rewrite S2, map_map. apply map_ext. intro x. f_equal. lia. }
+  rewrite F1, F2.
+  rewrite (interleave_app (firstn k t) (firstn k t) (j :: skipn k t) (j' :: skipn k t)) by reflexivity.
+  reflexivity.
+Qed.
+
+Section FockMarginals.
+  Variable K : Type.
+  Variables (k0 : K) (kadd kmul : K -> K -> K).
+
+  (* reduced_dm([k])[j,j'] = sum over the other modes' indices t of dm[.. t_m,t_m .. j,j' .. ] *)
+  Lemma reduced_dm_single : forall D N (s : tensor K) k r j j',
+    1 < N -> k < N -> reduced_dm K k0 kadd D N s [k] = Ok r ->
+    r [j; j'] = sumL K k0 kadd D (N - 1) (fun t => s (interleave (insert_nth k j t) (insert_nth k j' t))).
+  Proof.
+    intros D N s k r j j' HN Hk H. unfold reduced_dm in H.
+    destruct (list_eqb [k] (seq 0 N)) eqn:E.
+    { apply list_eqb_eq in E. destruct N as [|[|N']]; simpl in E; try lia; discriminate. }
+    cbn [sorted_le negb length] in H.
+    replace (N <? 1) with false in H by (symmetry; apply Nat.ltb_ge; lia).
+    destruct (labels_cover 1 (red_labels N [k])); cbn [negb] in H; [|discriminate].
+    inversion H; subst r. unfold einsum_labels. rewrite red_labels_single by assumption.
+    apply sumL_ext. intros t Ht _. apply f_equal. apply labels_single_eval; assumption.
+  Qed.
+
+  Lemma insert_nth_length : forall k j (t : list nat), k <= length t -> length (insert_nth k j t) = S (length t).
+  Proof.
+    intros k j t H. unfold insert_nth. rewrite app_length. cbn [length].
+    rewrite firstn_length, skipn_length. lia.
+  Qed.
+
+  Lemma insert_nth_bounded : forall D k j (t : list nat), j < D -> Forall (fun i => i < D) t ->
+    Forall (fun i => i < D) (insert_nth k j t).
+  Proof.
+    intros D k j t Hj Ht. unfold insert_nth.
+    rewrite <- (firstn_skipn k t) in Ht. apply Forall_app in Ht as [A B].
+    apply Forall_app. split; [assumption|]. constructor; assumption.
+  Qed.
+
+  (* C16_fock_marginals: the diagonal of reduced_dm([k]) is the k-th marginal of all_fock_probs() *)
+  Lemma fock_marginal : forall D N (s : tensor K) k r,
+    k < N -> reduced_dm K k0 kadd D N s [k] = Ok r ->
+    forall j, j < D -> r [j; j] = marginal K k0 kadd D N (all_fock_probs_mixed K D N s) k j.
+  Proof.
+    intros D N s k r Hk H j Hj.
+    destruct (Nat.eq_dec N 1) as [E1|E1].
+    - subst N. assert (k = 0) by lia. subst k. unfold reduced_dm in H. simpl in H. inversion H; subst r.
+      unfold marginal. simpl. rewrite all_fock_probs_diag; [reflexivity|reflexivity|repeat constructor; assumption].
+    - rewrite (reduced_dm_single D N s k r j j) by (try assumption; lia).
+      unfold marginal. apply sumL_ext. intros t Ht Hb. symmetry. apply all_fock_probs_diag.
+      + rewrite insert_nth_length by lia. lia.
+      + apply insert_nth_bounded; assumption.
+  Qed.
+
+  (* ... and mean_photon(k) is the first moment of that marginal *)
+  Lemma fock_mean_photon_marginal : forall (of_nat : nat -> K) D N (s : tensor K) k mp,
+    k < N -> mean_photon_fock K k0 kadd kmul of_nat D N s k = Ok mp ->
+    mp = sumn K k0 kadd D (fun j => kmul (of_nat j) (marginal K k0 kadd D N (all_fock_probs_mixed K D N s) k j)).
+  Proof.
+    intros of_nat D N s k mp Hk H. unfold mean_photon_fock in H.
+    destruct (reduced_dm K k0 kadd D N s [k]) as [r| |] eqn:R; try discriminate.
+    inversion H; subst mp. apply sumn_ext. intros j Hj. f_equal. eapply fock_marginal; eassumption.
+  Qed.
+End FockMarginals.
